@@ -154,13 +154,15 @@ def run(pid, tier, seed, workdir, replay, skip_lean, t0):
         groups = {}
         for mf in unlisted:
             groups.setdefault((mf["leg"], mf["what"]), mf)
-        for i, ((leg, what), mf) in enumerate(sorted(groups.items(), key=lambda kv: str(kv[0]))):
+        # at most 12 replay files per run (a systematic breakage produces hundreds of groups)
+        for i, ((leg, what), mf) in enumerate(sorted(groups.items(), key=lambda kv: str(kv[0]))[:12]):
             path = write_replay(pid, f"failing_input_{seed}_{i}.json", {
                 "property": pid, "kind": "failing-input", "leg": leg, "what": what,
                 "case": mf["case"], "observed": mf["observed"], "expected": mf["expected"],
                 "key": mf.get("key", {}),
                 "how_to_replay": f"./check {pid} --replay <this file>",
                 "n_failures_in_group": sum(1 for m in unlisted if (m["leg"], m["what"]) == (leg, what)),
+                "n_groups_in_run": len(groups), "n_failures_in_run": len(unlisted),
             })
             lines.append(f"VIOLATION property={pid} replay={path}")
             violations += 1
